@@ -30,6 +30,7 @@ macro_rules! with_world {
             "box" => $body::<worlds::boxw::BoxWorld>($($args),*),
             "stream" => $body::<worlds::stream::StreamWorld>($($args),*),
             "verifier" => $body::<worlds::verifier::VerifierWorld>($($args),*),
+            "rng" => $body::<worlds::rngw::RngWorld>($($args),*),
             other => {
                 eprintln!("unknown world {} in this build ({})", other, plan::build_name());
                 2
